@@ -39,7 +39,8 @@ LIGHT = ("ORdmm_Land", "ToRORd_dyn_chloride")  # seconds per load: membership on
 HANG = "9**9**9"
 COMMENTS = ["1/0", "(", ")", "-", "mV", "x = 1", "a*b + (c", "#", "µA/cm² → ok", "see eq. (3) of [12]", "2 mV", "ms**-1", "TODO: fix!",
             "100 %", "'", '"quoted"', "dx_dt = 0", 'expressions("Zz")', "states(zz=1)", "y = ", "=", "1e400", "a.b", "rate of x", "*", "[",
-            "}", "\\", "lambda: 0", "e", "long " + "abc " * 750]
+            "}", "\\", "lambda: 0", "e", "long " + "abc " * 750, "word " * 40 + "!",
+            "the membrane potential is held at rest until the stimulus arrives and is then released, see the text."]
 UNITS = ["mV", "ms", "mM", "uA/cm**2", "1", "ms**-1", "mS/uF", "pA/pF", "nA", "um**2", "mol/l", "mS*mm**-2"]
 DESCS = ["a gate", "", "rate k (1/ms)", "see # 3", "1/0", "9**9", "µ-unit → ok", "x = 1", "(", "it's"]
 PLACES = ("at-top", "after-decl", "after-header", "in-block", "after-block", "at-end")
@@ -203,7 +204,8 @@ def cases(tier, seed, focus):
             if e.startswith(("comment-line", "trailing-comment")) and "removed" not in e:
                 seen[e] = seen.get(e, 0) + 1
                 hang = e in HANG_KINDS and not case.get("file") and (seen[e] == 2 if tier == "quick" else seen[e] % 45 == 2)
-                case["comment"] = HANG if hang else COMMENTS[ci % len(COMMENTS)]
+                # every edit kind walks through the whole comment pool (a shared index would pair each kind with a fixed residue class)
+                case["comment"] = HANG if hang else COMMENTS[(seen[e] + 5 * len(e)) % len(COMMENTS)]
                 ci += 1
             yield case
             j += 1
@@ -296,7 +298,8 @@ def on_timeout(case):
     if c is not None:
         res["evals"] += 1
         res["nontrivial"].append(cm.sha(c["ode"]))
-        res["failures"].append(cm.fail(_sig(c["edit"], "load-hangs"), f"no answer for the edited text within {CASE_TIMEOUT} s (the base is limited to {BASE_LIMIT} s)",
+        kind = "power-tower" if HANG in str(c.get("desc")) else "text"  # the pint power tower is a listed finding; any other text is new
+        res["failures"].append(cm.fail(_sig(c["edit"], "load-hangs") + ":" + kind, f"no answer for the edited text within {CASE_TIMEOUT} s (the base is limited to {BASE_LIMIT} s)",
                                        {k: c.get(k) for k in ("base", "ode", "edit", "desc", "light")}, "loads", "killed after the timeout", cm.short(c["desc"], 300)))
     return res
 
